@@ -130,6 +130,11 @@ func (g *Gen) atom() string {
 	case 3:
 		return "." + kernel.Pick(r, keys) + "." + kernel.Pick(r, keys)
 	case 4:
+		if g.Bias == "opt" && r.Bool(0.4) {
+			// index and slice by expressions that look constant and are not quite
+			x := kernel.Pick(r, []string{g.suffixedLiteral(), "-" + g.suffixedLiteral(), "(1)", "(1 | . + 1)", `("a" + "b")`, "1 as $q | $q", "(0, 1)", "empty", "-(1)", "- 1"})
+			return kernel.Pick(r, []string{".[" + x + "]?", ".[" + x + ":]?", ".[:" + x + "]?", ".a[" + x + "]?", "(.[" + x + "]? = 5)?", "-" + x + "?"})
+		}
 		return kernel.Pick(r, []string{".[1:]", ".[:2]", ".[1:3]", ".[-2:]", `.["a"]`, `."b"`, ".[]?", ".a[]?", ".[0]?", ".a?"})
 	case 5:
 		return g.literal()
@@ -147,8 +152,18 @@ func (g *Gen) atom() string {
 	}
 }
 
+// suffixed literals: a literal followed by an index, slice or optional suffix is not a constant
+func (g *Gen) suffixedLiteral() string {
+	r := g.r
+	return kernel.Pick(r, []string{`"abc"`, `"a"`, `1`, `[1,2]`, `{"a":1}`, `[0]`, `"k"`, `2.5`, `[[1]]`, `{"a":"b"}`}) +
+		kernel.Pick(r, []string{"[1:]", "[0]", "[0]?", ".a", ".a?", "[:1]", "[-1]", "[0:1]", "[]?", "[1]?"})
+}
+
 func (g *Gen) literal() string {
 	r := g.r
+	if g.Bias == "opt" && r.Bool(0.08) {
+		return g.suffixedLiteral()
+	}
 	switch r.Weighted([]int{5, 3, 2, 1, 1}) {
 	case 0:
 		return kernel.Pick(r, []string{"0", "1", "2", "3", "10", "-1", "-2", "1.5", "100000000000000000000", "-100000000000000000000", "1e2", "0.5", "-0.5", "-0", "9223372036854775807", "-9223372036854775808"})
@@ -179,6 +194,9 @@ func (g *Gen) expr(depth int) string {
 	}
 	r := g.r
 	w := []int{8, 10, 5, 6, 5, 4, 4, 3, 3, 3, 3, 3, 8, 5, 5, 3, 3, 2}
+	if g.Bias == "opt" && r.Bool(0.06) {
+		return g.joinThenConst(depth)
+	}
 	switch g.Bias {
 	case "opt":
 		w = []int{6, 8, 5, 8, 8, 8, 6, 3, 3, 2, 4, 2, 10, 4, 10, 3, 3, 4}
@@ -232,12 +250,43 @@ func (g *Gen) expr(depth int) string {
 	}
 }
 
+// joinThenConst: a control-flow join whose last branch emits little or no code, followed directly
+// by a constant or a variable load; instruction-level rewrites that merge neighbours must respect
+// the join. Placed where a stray or missing stack value shows.
+func (g *Gen) joinThenConst(depth int) string {
+	r := g.r
+	v := "$jx"
+	a := kernel.Pick(r, []string{v, v, "1", `"s"`, ".", ".a?", "empty", "null", "[]", v + ".a?"})
+	c := kernel.Pick(r, []string{".", "true", "false", ".a?", "(. == null)", "(type == \"number\")", "empty", v})
+	j := kernel.Pick(r, []string{
+		"if C then A end", "if C then A else . end", "if C then . else A end", "if C then A elif C then . else A end",
+		"(A, .)", "(., A)", "(A // .)", "(. // A)", "try A catch .", "(A as $q | .)", "label $z | A", "(A | select(C))",
+		"first(A, .)", "(A | values)", "(A?)", "(A | .)", "if C then A else empty end", "(A, empty)", "(empty, A)", "reduce A as $q (.; .)",
+	})
+	j = strings.ReplaceAll(strings.ReplaceAll(j, "A", a), "C", c)
+	k := kernel.Pick(r, []string{"2", v, "[]", "{}", `"k"`, "null", "true", "-1", "(2)", "[1,2]", "{a:1}"})
+	e := "(" + j + " | " + k + ")"
+	if r.Bool(0.3) {
+		e = "(" + j + " | " + k + " | " + kernel.Pick(r, []string{"3", v, "."}) + ")"
+	}
+	ctx := kernel.Pick(r, []string{"{k: E}", "{k: 1, m: E, z: 2}", "(E - 10)?", "(10 - E)?", "[E, 0]", "[0, E]", "[E] + [7]", "{(E | tostring): 1}", "[E, E]", "(E as $w | [$w, 1])", "[limit(3; E)]", "[E | tostring]", "def jf(x): [x, 1]; jf(E)", "[.[]? | E]", "(E, E)"})
+	return "(1 as " + v + " | " + strings.ReplaceAll(ctx, "E", e) + ")"
+}
+
 func (g *Gen) postfixable(depth int) string {
 	s := g.expr(depth)
 	return "(" + s + ")"
 }
 
 func (g *Gen) array(depth int) string {
+	s := g.array0(depth)
+	for strings.Contains(s, "LIT") {
+		s = strings.Replace(s, "LIT", kernel.Pick(g.r, []string{"1", "2", `"a"`, "null", "true", "[]", "-1", "{}"}), 1)
+	}
+	return s
+}
+
+func (g *Gen) array0(depth int) string {
 	r := g.r
 	switch r.Weighted([]int{3, 4, 3, 2}) {
 	case 0:
@@ -259,6 +308,10 @@ func (g *Gen) array(depth int) string {
 		}
 		return "[" + strings.Join(xs, ", ") + "]"
 	case 2:
+		if g.Bias == "opt" && r.Bool(0.5) {
+			// the instruction shape of a literal array, reached another way
+			return "[" + kernel.Pick(r, []string{"(LIT, .) | LIT", "(., LIT) | LIT", "(LIT, empty) | LIT", "LIT, (.) | LIT", "(LIT, LIT) | LIT", "LIT, (LIT | LIT)", "(LIT, .), LIT | LIT", "(LIT // .) | LIT", "LIT, ., LIT", "(LIT, .)[]?, LIT"}) + "]"
+		}
 		return "[" + g.expr(depth-1) + " | " + g.expr(depth-1) + "]"
 	default:
 		return "[.[]? | " + g.expr(depth-1) + "]"
